@@ -197,6 +197,7 @@ func runBytes(c *mon.Ctx, batch, batches int) {
 	senParser := func() *sen.Parser {
 		p := &sen.Parser{}
 		p.AddTokenFunc("f", func(args ...any) any { return len(args) })
+		p.AddMongoFuncs()
 		return p
 	}
 	nstate := 0
@@ -286,6 +287,22 @@ func runBytes(c *mon.Ctx, batch, batches int) {
 		s := []byte(seeds[r.Intn(len(seeds))])
 		visit(jsongen.Mutate(r, s, []byte(seeds[r.Intn(len(seeds))])), "senmutant", false)
 	}
+	// the optional mongo token functions (Parser.AddMongoFuncs) and a user function: every function x every
+	// kind and number of arguments, alone, in containers and nested
+	k := 0
+	args := []string{"", `"5"`, `5`, `-5`, `1.5`, `null`, `true`, `[1]`, `{a:1}`, `abc`, `"x" "y"`, `"2021-06-28T10:11:12Z"`, `"99999999999999999999"`, `99999999999999999999`, `""`, `f(1)`, `NumberInt(5)`, `5 6`}
+	for _, fn := range []string{"ISODate", "ObjectId", "NumberInt", "NumberLong", "NumberDecimal", "f", "nosuch"} {
+		for _, a := range args {
+			for _, ctx := range []string{"%s", "[%s]", "{a:%s}", "[1 %s 2]", "f(%s)"} {
+				k++
+				if !c2.Mine(k) {
+					continue
+				}
+				c.Cover("sen:token-function-calls")
+				visit([]byte(fmt.Sprintf(ctx, fn+"("+a+")")), "senfunc", false)
+			}
+		}
+	}
 }
 
 // ---- jp group ----
@@ -295,6 +312,7 @@ var jpAlpha = []string{"$", "@", ".", "*", "[", "]", "?", "(", ")", "'", "\"", "
 var jpSeeds = []string{
 	`$.a.b[0][-1]['k'][*]..x[1,2,'a'][1:5:2][?(@.x == 1)]`, `@.a[?(@.b > 1.5 && @.c != 'x' || !(@.d in [1,2,'a']))]`, `$[?(@.a =~ /ab+c/i)]`, `$['é\t\'x'].b`, `$..[?(@.price < $.limit)].title`,
 	`$[?length(@.a) == 3]`, `$[?count(@..a) >= 2]`, `$[?match(@.a, 'x.*')]`, `$[?search(@.b, "y")]`, `$[?(@.a has true)]`, `$[?(@.a exists false)]`, `$[?(@.x empty true)]`, `$.a[?(1 + 2 * 3 - 4 / 2 == @.v)]`,
+	`$[?(@.a)][(x)]`, `$[(@.length-1)]`, `$.a[(1+1)].b[(2)]`, `$[(x)][(y)]`, `$[?(@.a == 1)].b[(c)].d[?(@.e)]`,
 	`a.b.c`, `[0]`, `$..`, `$.*.*`, `$[::-1]`, `$[-3:-1]`, `$["a","b"]`, `$[?(@ == null)]`, `$[?@.a]`, `$.x[?(@.a == Nothing)]`,
 }
 
